@@ -67,20 +67,26 @@ func (pt *ParsedTable) ToMarkdown() string {
 		sb.WriteString("|")
 		colIdx := 0
 		for _, cell := range row.Cells {
-			if cell.IsCovered {
-				continue
-			}
-			// Replace newlines and pipes within cells
-			text := strings.ReplaceAll(cell.Text, "\n", " ")
-			text = strings.ReplaceAll(text, "|", "\\|")
-			text = strings.TrimSpace(text)
-			sb.WriteString(" ")
-			sb.WriteString(text)
-			sb.WriteString(" |")
-
 			span := cell.ColSpan
 			if span < 1 {
 				span = 1
+			}
+			// Markdown has no merged cells: the text goes to the first
+			// column of the region, every other covered column (and the
+			// continuation rows of a vertical merge) gets an empty cell so
+			// that later cells stay in their column.
+			text := ""
+			if !cell.IsCovered {
+				// Replace newlines and pipes within cells
+				text = strings.ReplaceAll(cell.Text, "\n", " ")
+				text = strings.ReplaceAll(text, "|", "\\|")
+				text = strings.TrimSpace(text)
+			}
+			sb.WriteString(" ")
+			sb.WriteString(text)
+			sb.WriteString(" |")
+			for i := 1; i < span; i++ {
+				sb.WriteString("  |")
 			}
 			colIdx += span
 		}
